@@ -102,6 +102,12 @@ func LoadBackendEnsureUser(env *Env) func(*cobra.Command, []string) error {
 
 		_, err = identity.GetUserIdentity(env.Repo)
 		if err != nil {
+			// The backend is open and holds the lock of the repository. Cobra doesn't run RunE (and so
+			// the CloseBackend wrapper) after a failing pre-run: release it here.
+			if env.Backend != nil {
+				_ = env.Backend.Close()
+				env.Backend = nil
+			}
 			return err
 		}
 
